@@ -139,9 +139,9 @@ Json/StreamProofs.vos Json/StreamProofs.vok Json/StreamProofs.required_vos: Json
 Properties/C11.vo Properties/C11.glob Properties/C11.v.beautified Properties/C11.required_vo: Properties/C11.v Base/GoInt.vo Json/StreamModel.vo
 Properties/C11.vio: Properties/C11.v Base/GoInt.vio Json/StreamModel.vio
 Properties/C11.vos Properties/C11.vok Properties/C11.required_vos: Properties/C11.v Base/GoInt.vos Json/StreamModel.vos
-Properties/C17.vo Properties/C17.glob Properties/C17.v.beautified Properties/C17.required_vo: Properties/C17.v Base/GoInt.vo Json/StreamModel.vo
-Properties/C17.vio: Properties/C17.v Base/GoInt.vio Json/StreamModel.vio
-Properties/C17.vos Properties/C17.vok Properties/C17.required_vos: Properties/C17.v Base/GoInt.vos Json/StreamModel.vos
+Properties/C17.vo Properties/C17.glob Properties/C17.v.beautified Properties/C17.required_vo: Properties/C17.v Base/GoInt.vo Json/Ext.vo Json/StreamModel.vo Json/StateSpec.vo Json/TokenProofs.vo
+Properties/C17.vio: Properties/C17.v Base/GoInt.vio Json/Ext.vio Json/StreamModel.vio Json/StateSpec.vio Json/TokenProofs.vio
+Properties/C17.vos Properties/C17.vok Properties/C17.required_vos: Properties/C17.v Base/GoInt.vos Json/Ext.vos Json/StreamModel.vos Json/StateSpec.vos Json/TokenProofs.vos
 Json/AppendModel.vo Json/AppendModel.glob Json/AppendModel.v.beautified Json/AppendModel.required_vo: Json/AppendModel.v Base/GoInt.vo
 Json/AppendModel.vio: Json/AppendModel.v Base/GoInt.vio
 Json/AppendModel.vos Json/AppendModel.vok Json/AppendModel.required_vos: Json/AppendModel.v Base/GoInt.vos
